@@ -113,7 +113,7 @@ EXPORT errno_t _strchr_s_chk(const char *restrict dest, rsize_t dmax,
 
     if (!*resultp)
         return (ESNOTFND);
-    else if ((long)(*resultp - dest) > (long)dmax) {
+    else if ((long)(*resultp - dest) >= (long)dmax) {
         *resultp = NULL;
         return (ESNOTFND);
     }
